@@ -10,11 +10,12 @@ var c06Oracle = icOracle{timeout: true, status: true}
 // C06 — timeout rollback fires exactly at H+T and never otherwise.
 func C06(c *mc.Ctx) {
 	alphabet := []string{
-		"empty", "req:p1:n:1", "req:p1:n:2", "rc:p1:n:s", "rc:p1:n:f", "rc:p1:n:r", "req:p1:n:0", "req:p3:n:2", "req:p2:n:1", "reopen", "req:p1:n:1+rc:p1:n:f",
+		"empty", "req:p1:n:1", "req:p1:n:2", "req:p1:n:3", "rc:p1:n:s", "rc:p1:n:f", "reopen", "req:p2:n:1",
+		"req:p1:n:1+rc:p1:n:f", "req:p1:n:2+req:p1:n:2", "rc:p1:n:s+rc:p1:n:s",
 	}
 	depth := 5
 	if !c.Quick() {
-		alphabet = append(alphabet, "req:p1:n:3", "req:p1:n:huge", "req:p1:n:-1", "req:p1:n:2+req:p3:n:2", "req:p1:n:1+rc:p1:n:s", "rc:p3:n:s", "rc:p2:n:f", "req:p1:n:1+req:p1:n:1")
+		alphabet = append(alphabet, "rc:p1:n:r", "req:p1:n:0", "req:p3:n:2", "req:p1:n:huge", "req:p1:n:-1", "req:p1:n:2+req:p3:n:2", "req:p1:n:1+rc:p1:n:s", "rc:p3:n:s", "rc:p2:n:f", "rc:p1:n:s+rc:p3:n:s")
 		depth = 7
 	}
 	runIC(c, "C06", c06Oracle, fix.Options{}, "icmc", alphabet, depth)
